@@ -20,22 +20,22 @@ type hevcSPS struct {
 }
 
 type hevcPPS struct {
-	ID, SPSID            int
-	DependentSlices      bool
-	OutputFlagPresent    bool
-	NumExtraBits         int
-	CabacInitPresent     bool
-	NumRefL0, NumRefL1   int
-	ChromaQpOffsets      bool
-	WeightedPred         bool
-	EntropySync          bool
-	LoopFilterAcross     bool
-	DeblockCtrl          bool
-	DeblockOverride      bool
-	PpsDeblockDisabled   bool
-	ListsModification    bool
-	SliceHdrExt          bool
-	NAL                  []byte
+	ID, SPSID          int
+	DependentSlices    bool
+	OutputFlagPresent  bool
+	NumExtraBits       int
+	CabacInitPresent   bool
+	NumRefL0, NumRefL1 int
+	ChromaQpOffsets    bool
+	WeightedPred       bool
+	EntropySync        bool
+	LoopFilterAcross   bool
+	DeblockCtrl        bool
+	DeblockOverride    bool
+	PpsDeblockDisabled bool
+	ListsModification  bool
+	SliceHdrExt        bool
+	NAL                []byte
 }
 
 type hevcParams struct {
